@@ -55,7 +55,9 @@ PROPS = {
                                              'g.frompgn': ['r', 'st', 'n', 'fen', 'tags'], 'g.tag': ['r']}, corr_only={'g.frompgn'}),
     'C16': dict(groups=['parse'], ops={'pmove': ['r', 'rr']}, only_if={'pmove': ('r', 'ok')}),
     'C17': dict(groups=['tables'], ops={'tbl': ['v'], 'prim': ['v']}),
-    'C18': dict(groups=['prims'], ops={'prim': ['v'], 'bb': ['list', 'cnt', 'lo', 'hi', 'alg', 'dbg']}),
+    # psq/pfile/prank/ppiece (parse group): `foreign texts are errors` is part of C18's statement
+    'C18': dict(groups=['prims', 'parse'], ops={'prim': ['v'], 'bb': ['list', 'cnt', 'lo', 'hi', 'alg', 'dbg'],
+                                              'psq': ['r'], 'pfile': ['r'], 'prank': ['r'], 'ppiece': ['r']}),
     'C19': dict(groups=['flip'], ops={'flip': ['v', 'h']}),
     'C20': dict(groups=['render', 'prims'], ops={'render': ['s', 'f', 'd'], 'gstat': ['v'], 'bb': ['grid']}),
 }
